@@ -63,6 +63,50 @@ func isNameValidator(f *ssa.Function) bool {
 			}
 		}
 	})
+	// the same test written as a loop over the bytes of the name: name[i] == '/' (directly or in a
+	// new predicate helper that is handed name[i]) inside a loop over the whole of len(name)
+	if !slash {
+		isByteOfName := func(v ssa.Value) bool {
+			elemOf := func(x ssa.Value) bool {
+				switch e := x.(type) {
+				case *ssa.Index: // string and array indexing
+					return e.X == ssa.Value(p)
+				case *ssa.Lookup:
+					return e.X == ssa.Value(p)
+				}
+				return false
+			}
+			if elemOf(v) {
+				return true
+			}
+			if q, ok := v.(*ssa.Parameter); ok && q != p {
+				for _, a := range boundArgs(q) {
+					if elemOf(a) {
+						return true
+					}
+				}
+			}
+			return false
+		}
+		header, _, _ := loopOverLen(f, func(os []string) bool { return len(os) == 1 && os[0] == "param:"+p.Name() })
+		if header != nil {
+			for _, g := range fnsDeep(f) {
+				instrs(g, func(_ *ssa.BasicBlock, _ int, ins ssa.Instruction) {
+					bo, ok := ins.(*ssa.BinOp)
+					if !ok || (bo.Op != token.EQL && bo.Op != token.NEQ) {
+						return
+					}
+					for _, pr := range [][2]ssa.Value{{bo.X, bo.Y}, {bo.Y, bo.X}} {
+						if k, isK := pr[1].(*ssa.Const); isK && k.Value != nil && k.Value.Kind() == constant.Int {
+							if v, _ := constant.Int64Val(k.Value); v == '/' && isByteOfName(pr[0]) {
+								slash = true
+							}
+						}
+					}
+				})
+			}
+		}
+	}
 	// and it can answer false
 	canFalse := false
 	for _, r := range returnsOf(f) {
